@@ -309,6 +309,28 @@ func c05SaddrBytes(c *enumx.Ctx) {
 			}
 		}
 	}
+	// EVERY address family (0..46, 127, 128, 255; thorough: 0..255 - a family the decoder learns tomorrow sits in today's default branch) x lengths of 16 ...
+	// 128 hex digits x a zero / FF fill with ONE byte anywhere set to each of 8 values: lengths, counts and offsets that
+	// the payload states about itself (sll_halen, sun_path, scope ids) may point beyond what is there
+	for fam := 0; fam < 256; fam++ {
+		if c.Tier != "thorough" && fam > 46 && fam != 127 && fam != 128 && fam != 255 {
+			continue // AF_MAX is 46: quick takes the defined families and three more
+		}
+		for _, n := range []int{16, 24, 32, 40, 48, 56, 64, 112, 128} {
+			if !c.Mine() {
+				continue
+			}
+			for _, fill := range []string{"00", "FF"} {
+				base := fmt.Sprintf("%02X00", fam) + strings.Repeat(fill, (n-4)/2)
+				parseBody(c, 1306, "audit(1700000000.123:42): saddr="+base)
+				for pos := 4; pos+2 <= n; pos += 2 {
+					for _, v := range []string{"01", "06", "08", "14", "7F", "80", "FE", "FF"} {
+						parseBody(c, 1306, "audit(1700000000.123:42): saddr="+base[:pos]+v+base[pos+2:])
+					}
+				}
+			}
+		}
+	}
 	c.Sample("Parse(1306, saddr=02000050-A000001...) : a sign where a hex digit belongs")
 }
 
